@@ -423,7 +423,7 @@ pub fn main(tier: Option<&str>) {
         "quotes: every subset (<=3 fields quick, all 2^10 thorough) of field mutations x pub_key in {n1,n2,garbage,empty} x signature \
          provenance in 7 variants x claimed identity in {n1,n2}; proofs: every sequence of <=3(4) entries over 5 entry kinds verified \
          for n1,n2,n3; expiry: 10 ages each alone and inside a proof in both positions; history: 3x3x3x3 metric grid x both receivers x 3 timestamp placements (both past, later one ahead of the clock, both ahead); driver layer: every delivery order of every selection of <=3(4) quotes with \
-         distinct ages from a pool (3(4) ages x 3 live times x 2 payment counts) through a real SwarmDriver's QuoteVerification handling, the peer's issue list read after every delivery. \
+         distinct ages from a pool (4(6) ages, 100 s to 2 h (25 h) old, on both sides of the validity window, x 3 live times x 2 payment counts) through a real SwarmDriver's QuoteVerification handling, the peer's issue list read after every delivery. \
          A case is non-trivial when at least one thing differs from the authentic quote / the proof is non-empty.",
     );
     run.assume("timestamp changes below one second are not judged: the signature covers whole seconds (reported in coverage.subsecond_timestamp_change_still_verifies)");
